@@ -40,7 +40,9 @@ def main(argv):
         from .pyvc import selftest
         for msg in selftest.main(env.REPO, verbose=False):
             rep.error(msg)
-        rep.extra['encoder_selftest'] = {'scripts': len(selftest.SCRIPTS), 'result': 'agree' if not rep.errors else 'DISAGREE'}
+        rep.extra['encoder_selftest'] = {'scripts': len(selftest.SCRIPTS), 'frame_rule_cases': len(selftest.FRAME_CASES),
+                                         'symbolic_differential_cases': len(selftest.SYM_CASES) + len(selftest.LABEL_CASES),
+                                         'result': 'agree' if not rep.errors else 'DISAGREE'}
     except Exception:
         rep.error('encoder self-test crashed: ' + traceback.format_exc()[-1500:])
     if prop in HEAP_PROPS:
